@@ -228,6 +228,13 @@ class Interp:
             sa = v.r.single_atom()
             if sa is not None:
                 return [Num(Rat.atom(poly.T.app("fn", "idx", (v.r, i)))) for i in range(n)]
+            # scalar * vector-valued atom (e.g. lstsq(...)[0] * R)
+            cands = [i for i in v.r.atom_ids() if poly.T.get(i).kind != "sym" and (poly.T.get(i).kind == "ucall" or poly.T.get(i).name in ("idx", "attr"))]
+            if len(cands) == 1:
+                a = poly.T.get(cands[0])
+                sc = v.r / Rat.atom(a)
+                if a.id not in sc.deps():
+                    return [Num(sc * Rat.atom(poly.T.app("fn", "idx", (Rat.atom(a), i)))) for i in range(n)]
         if isinstance(v, (Opaque,)):
             return [Opaque("%s[%d]" % (v.desc, i)) for i in range(n)]
         raise Unmodelled("cannot unpack %r into %d targets at %s" % (v, n, frame.loc(node)))
